@@ -147,7 +147,8 @@ def reg_lines(rng):
     import webauthn
     from harness import fw as _fw
     for fmt in ("packed", "tpm", "fido-u2f"):
-        for what, lnb, lna in (("valid today", now - D, now + D), ("expired last year", now - 400 * D, now - 300 * D)):
+        for what, lnb, lna in (("valid today", now - D, now + D), ("expired last year", now - 400 * D, now - 300 * D), ("becomes valid in 30 minutes", now + 1800, now + D), ("expired 30 minutes ago", now - D, now - 1800),
+                               ("valid since 30 minutes ago", now - 1800, now + D), ("expires in 30 minutes", now - D, now + 1800)):
             s = regsim.RScn(fmt, "ES256-P256")
             s.pki_tag = "RT"
             s.n_inter = 0 if fmt == "fido-u2f" else 1
